@@ -4,6 +4,7 @@ MPU file sink
 
 from __future__ import annotations
 
+import hashlib
 import shutil
 from pathlib import Path
 from typing import Any
@@ -28,7 +29,10 @@ class MPUFileSink:
         if parts_base is None:
             parts_dir = dst.parent / f".{dst.name}.parts"
         else:
-            parts_dir = Path(parts_base) / f".{dst.name}.parts"
+            # shared by many destinations: same file name in another directory has
+            # to get a parts directory of its own
+            _uid = hashlib.sha1(str(dst.absolute()).encode("utf-8")).hexdigest()[:12]
+            parts_dir = Path(parts_base) / f".{dst.name}.{_uid}.parts"
 
         self._dst = dst
         self._parts_dir = parts_dir
